@@ -255,6 +255,122 @@ Proof.
   - vm_compute. reflexivity.
   - vm_compute. reflexivity.
 Qed.
+(* ------------------------------------------------------------------------------------------------------------ *)
+(** * Whole trees (wave 5): the two laws over the outputs the engine REALLY computed
+
+   Engine of block containers and leaves (Model/BlockEngine.v) with the real absolute-item routine (Model/BlockAbs.v) under
+   compute_root_layout (Model/BlockRoot.v): the instance `vh blocktree cases` ties to TaffyTree::compute_layout_with_measure bit
+   for bit (exact-key memo).  `flow_inv` (Proofs/BlockTreeOrder.v): every node that is not display:none and whose final-layout
+   cache entry is (i, o) satisfies `flow_fact` (Proofs/BlockTreeFlow.v) -- there is a list `outs` such that each in-flow child
+   holds, as stored layout, the ItemResult of Model/Block.v block_inflow (the function C10_order_no_overlap / C10_fill_width are
+   about) run on (items, outs) with the loop constants of the container's own width, and, as final cache entry, (the input
+   child_input P item, its element of `outs`): the children's outputs are no longer oracle values but what each child returned
+   to this container.  Proved by induction over the block RESUMPTION alone through a Hoare-style reading of resumptions
+   (Proofs/EnginePost.v: Post / run_memo_post / memo_tinv). *)
+From TV Require Model.Engine Model.BlockAlg Model.BlockEngine Model.BlockAbs Model.BlockRoot Model.BlockTreeProps Model.BlockEngineExample Model.BlockAbsExample.
+From TV Require Proofs.EnginePost Proofs.BlockTreeFlow Proofs.BlockTreeOrder.
+Module WholeTrees.
+  Import TV.Model.Engine TV.Model.BlockAlg TV.Model.BlockEngine TV.Model.BlockAbs TV.Model.BlockRoot TV.Model.BlockTreeProps.
+  Import TV.Proofs.EnginePost TV.Proofs.BlockTreeFlow TV.Proofs.BlockTreeOrder.
+  Close Scope Q_scope.
+
+  (* the invariant holds for a freshly built tree and is kept by every memoised PerformLayout evaluation, by compute_root_layout
+     (any available space), hence by any sequence of layout passes; any `Num` (F32 too) *)
+  Theorem C10_block_tree_invariant : forall (T : Type) (N : Num T),
+    (forall k, flow_inv (T := T) block_pre (bl_fresh k)) /\
+    (forall f t i o t', bi_mode i = PerformLayout -> bl_memo block_pre abs_child_block f t i = Some (o, t') ->
+                        flow_inv (T := T) block_pre t -> flow_inv block_pre t') /\
+    (forall f t av t', block_compute_root block_pre abs_child_block f t av = Some t' -> flow_inv (T := T) block_pre t -> flow_inv block_pre t').
+  Proof.
+    intros T N. split; [apply flow_inv_fresh|]. split.
+    - intros f t i o t' Hm Hrun. apply (flow_inv_memo block_pre abs_child_block (fun _ _ => eq_refl) abs_child_block_local_pl f t i o t' Hm Hrun).
+    - intros f t av t' Hrun Hinv. unfold block_compute_root in Hrun.
+      destruct (bl_memo block_pre abs_child_block f t _) as [[o t1]|] eqn:E; [|discriminate]. injection Hrun as <-.
+      apply flow_inv_set_lay. refine (flow_inv_memo block_pre abs_child_block (fun _ _ => eq_refl) abs_child_block_local_pl f t _ o t1 _ E Hinv). reflexivity.
+  Qed.
+  Print Assumptions C10_block_tree_invariant.
+
+  (* clause 1 on whole trees: in ANY tree satisfying the invariant (e.g. after any number of passes from a fresh tree), for every
+     evaluated block container with finite top padding / border whose in-flow children have non-negative (or auto) vertical
+     margins, no vertical inset, and whose REAL outputs -- their final cache entries, the values this container consumed -- are
+     finite with non-negative margin sets and satisfy H_ct: the in-flow children are stacked in document order without overlap *)
+  Theorem C10_block_tree_children_stacked : forall t1 s c l kids i0 o0,
+    flow_inv (T := XQ) block_pre t1 -> subtree_of (Node _ _ _ _ s c l kids) t1 ->
+    final _ _ c = Some (i0, o0) -> bn_is_none s = false ->
+    top_edge_finite (bn_style s) -> Forall kid_order_ok kids -> kids_stacked kids.
+  Proof.
+    intros t1 s c l kids i0 o0 Hinv Hsub Hf Hnone Htop Hkids.
+    apply (block_tree_children_stacked block_pre s c l kids i0 o0); try assumption.
+    exact (flow_inv_subtree block_pre _ _ Hsub Hinv).
+  Qed.
+  Print Assumptions C10_block_tree_children_stacked.
+
+  (* clause 2 on whole trees (any `Num`): an in-flow child with auto width, no min / max width, no aspect ratio, length horizontal
+     margins, not a table was last laid out (its final cache entry, up to the memo's key equality) with known width =
+     container inner width - (margin_left + margin_right) -- the inner width of the container's OWN computed width -- and its
+     stored size is the size it returned *)
+  Theorem C10_block_tree_fill_width : forall (T : Type) (N : Num T) t1 s c l kids i0 o0 j tj ml mr,
+    flow_inv (T := T) block_pre t1 -> subtree_of (Node _ _ _ _ s c l kids) t1 ->
+    final _ _ c = Some (i0, o0) -> bn_is_none s = false ->
+    nth_error kids j = Some tj -> bn_inflow (style_of _ _ _ _ tj) = true ->
+    let sj := bn_style (style_of _ _ _ _ tj) in
+    st_is_table sj = false -> st_aspect_ratio sj = None ->
+    s_w (st_size sj) = Auto -> s_w (st_min_size sj) = Auto -> s_w (st_max_size sj) = Auto ->
+    r_left (st_margin sj) = Len ml -> r_right (st_margin sj) = Len mr ->
+    let inp := block_pre (bn_style s) i0 in
+    let P := block_params (bn_style s) (mkInput (bi_known inp) (bi_parent inp) (bi_collapsible inp)) (s_w (co_size o0)) in
+    exists i' iq co,
+      last_entry tj = Some (i', co) /\ (i' = iq \/ bin_eqb i' iq = true) /\
+      bi_mode iq = PerformLayout /\ s_w (bi_known iq) = Some (sub (inner_width P) (add ml mr)) /\
+      bl_size (lay_of _ _ _ _ tj) = co_size co.
+  Proof.
+    intros T N t1 s c l kids i0 o0 j tj ml mr Hinv Hsub Hf Hnone Hj Hin sj.
+    apply (block_tree_fill_width block_pre s c l kids i0 o0 j tj ml mr); try assumption.
+    exact (flow_inv_subtree block_pre _ _ Hsub Hinv).
+  Qed.
+  Print Assumptions C10_block_tree_fill_width.
+
+  (* the two together for one layout pass on a fresh tree (TaffyTree::compute_layout on a new tree) *)
+  Theorem C10_block_tree_fresh_pass : forall f (k : sk (BNode XQ)) av t1,
+    block_compute_root block_pre abs_child_block f (bl_fresh k) av = Some t1 ->
+    forall s c l kids i0 o0, subtree_of (Node _ _ _ _ s c l kids) t1 -> final _ _ c = Some (i0, o0) -> bn_is_none s = false ->
+      top_edge_finite (bn_style s) -> Forall kid_order_ok kids -> kids_stacked kids.
+  Proof.
+    intros f k av t1 Hrun s c l kids i0 o0 Hsub Hf Hnone Htop Hkids.
+    destruct (C10_block_tree_invariant XQ _) as (Hfresh & _ & Hroot).
+    exact (C10_block_tree_children_stacked t1 s c l kids i0 o0 (Hroot f _ av t1 Hrun (Hfresh k)) Hsub Hf Hnone Htop Hkids).
+  Qed.
+  Print Assumptions C10_block_tree_fresh_pass.
+
+  (* non-vacuity (Model/BlockAbsExample.v: scroll container with two in-flow leaves A, F and three absolute children between
+     them, after one layout pass): the root is evaluated, its top edge is finite, every child meets kid_order_ok -- A and F with
+     the outputs they really returned (heights 24 and 12, zero margin sets beyond A's own margin-top 4) --, hence by the theorem
+     the in-flow children are stacked; they sit at y = 10 (height 24) and y = 34 (height 12) *)
+  Import TV.Model.BlockEngineExample TV.Model.BlockAbsExample.
+  Example C10_block_tree_example :
+    match block_compute_root block_pre abs_child_block ex_fuel (bl_fresh exr_tree) exr_avail with
+    | Some (Node _ _ _ _ s c l kids) =>
+        (exists i0 o0, final _ _ c = Some (i0, o0)) /\ bn_is_none s = false /\ top_edge_finite (bn_style s) /\
+        Forall kid_order_ok kids /\ kids_stacked kids /\
+        map (fun t => (bl_y (lay_of _ _ _ _ t), s_h (bl_size (lay_of _ _ _ _ t)))) (filter (fun t => bn_inflow (style_of _ _ _ _ t)) kids)
+        = [(Fin 10, Fin 24); (Fin 34, Fin 12)]
+    | None => False
+    end.
+  Proof.
+    let v := eval vm_compute in (block_compute_root block_pre abs_child_block ex_fuel (bl_fresh exr_tree) exr_avail) in
+      assert (E : block_compute_root block_pre abs_child_block ex_fuel (bl_fresh exr_tree) exr_avail = v) by (vm_compute; reflexivity).
+    rewrite E. pose proof (C10_block_tree_fresh_pass ex_fuel exr_tree exr_avail _ E) as Hthm. clear E. cbv beta iota.
+    match goal with |- _ /\ _ /\ _ /\ ?K /\ _ /\ _ => assert (Hk : K) end.
+    { repeat apply Forall_cons; try apply Forall_nil; intro Hin; try (vm_compute in Hin; discriminate Hin).
+      all: split; [unfold order_style; cbn; repeat split; try exact I; try discriminate|].
+      all: intros i o E; vm_compute in E; injection E as <- <-; unfold order_out, fin_ms_q; cbn; repeat split; try exact I; try discriminate.
+      all: try (intro; discriminate). }
+    split; [eexists; eexists; reflexivity|]. split; [reflexivity|]. split; [split; exact I|]. split; [exact Hk|].
+    split; [|vm_compute; reflexivity].
+    eapply Hthm; [apply sub_here|reflexivity|reflexivity|split; exact I|exact Hk].
+  Qed.
+  Print Assumptions C10_block_tree_example.
+End WholeTrees.
 
 Print Assumptions C10_resolve_spec.
 Print Assumptions C10_order_no_overlap_partial.
